@@ -124,6 +124,30 @@ func init() {
 			pc.Cfg.RootType = rootName
 			pcs = append(pcs, pc)
 		}
+		// (d') property names whose Go name coincides with a name the emitted code or the generator itself uses: the
+		// additional-properties field, the locals of the methods, imported packages, predeclared identifiers — as an
+		// ordinary member next to a required key / a default / a constraint / the additionalProperties keyword
+		for _, pn := range []string{"additionalProperties", "additional_properties", "AdditionalProperties", "plain", "raw", "value", "err", "j", "ok", "st", "i",
+			"json", "fmt", "reflect", "strings", "yaml", "errors", "regexp", "math", "time", "types", "mapstructure",
+			"type", "func", "string", "int", "error", "nil", "true", "len", "map", "range", "interface", "struct", "any", "bool", "float64"} {
+			member := func() sgen.M { return sgen.M{"type": "boolean"} }
+			variants := map[string]sgen.M{
+				"required-sibling":   {"type": "object", "properties": sgen.M{pn: member(), "k": sgen.M{"type": "string"}}, "required": []any{"k"}},
+				"required-itself":    {"type": "object", "properties": sgen.M{pn: member()}, "required": []any{pn}},
+				"with-default":       {"type": "object", "properties": sgen.M{pn: sgen.M{"type": "boolean", "default": true}}},
+				"with-constraint":    {"type": "object", "properties": sgen.M{pn: sgen.M{"type": "string", "minLength": 1, "pattern": "^a"}, "n": sgen.M{"type": "number", "multipleOf": 0.5}}},
+				"next-to-addl":       {"type": "object", "properties": sgen.M{pn: member(), "k": sgen.M{"type": "string"}}, "required": []any{"k"}, "additionalProperties": sgen.M{"type": "string"}},
+				"in-a-definition":    {"type": "object", "$defs": sgen.M{"D": sgen.M{"type": "object", "properties": sgen.M{pn: member()}, "required": []any{pn}}}, "properties": sgen.M{"d": sgen.M{"$ref": "#/$defs/D"}}},
+				"as-definition-name": {"type": "object", "$defs": sgen.M{pn: sgen.M{"type": "object", "properties": sgen.M{"x": sgen.M{"type": "integer"}}, "required": []any{"x"}}}, "properties": sgen.M{"d": sgen.M{"$ref": "#/$defs/" + pn}}},
+			}
+			for _, vn := range core.SortedKeys(variants) {
+				for _, extra := range []bool{false, true} {
+					pc := baseCase("c01-internal-names", variants[vn], nil, pn, vn)
+					pc.Cfg.ExtraImports = extra
+					pcs = append(pcs, pc)
+				}
+			}
+		}
 		// (h) three colliding definition names with a reference from one into another (name bookkeeping while a type
 		// is in progress): the package must compile, except where the model predicts the redeclaration (K30 / K21)
 		for _, pc := range collisionThroughRefsCases("c01-collisions-through-refs") {
